@@ -1,7 +1,7 @@
 (* C02 — every query path answers from one and the same joint distribution (the explicit joint `brute`). *)
-From Coq Require Import List Arith Bool Permutation.
+From Coq Require Import List Arith Bool Permutation ZArith.
 Import ListNotations.
-Require Import PGM.Base.Alg PGM.Base.Sums PGM.Model.BP PGM.Model.Query PGM.Proofs.BPrunP PGM.Proofs.QueryP PGM.Proofs.QueryLinkP PGM.Proofs.JTP PGM.Proofs.PairP.
+Require Import PGM.Base.Alg PGM.Base.Sums PGM.Base.Qnn PGM.Model.BP PGM.Model.Query PGM.Proofs.BPrunP PGM.Proofs.QueryP PGM.Proofs.QueryLinkP PGM.Proofs.JTP PGM.Proofs.PairP.
 
 (* variable elimination equals the iterated sum of the product of the factors for EVERY elimination list
    (so the greedy heuristic, or the hash order of a Python set, cannot matter); any commutative semiring *)
@@ -58,6 +58,27 @@ Theorem C02_bulk_query_adjacent_cliques (F : SF) shape scope (psi : nat -> tbl F
                               (jointt F psi (Node i (Node j ksj :: rest))) x).
 Proof. intros W G V. exact (pair_marginal F shape scope psi W i j ksj rest c x G V). Qed.
 Print Assumptions C02_bulk_query_adjacent_cliques.
+
+(* non-vacuity of C02_bulk_query_adjacent_cliques: cliques ab (node 0) and bc (node 1) with a pendant clique cd (node 2) below bc, a zero entry
+   in the first potential; the tree is `good`, and the table built from the two clique beliefs equals the sum of the product over d *)
+Definition ex2_scope (c : nat) : list nat := nth c [[0;1];[1;2];[2;3]] [].
+Definition ex2_psi (c : nat) : tbl QnnSF :=
+  match c with
+  | 0 => fun x => Qnn_of (Z.of_nat (x 0 * (1 + x 1))) 1
+  | 1 => fun x => Qnn_of (Z.of_nat (1 + x 1 + 2 * x 2)) 2
+  | _ => fun x => Qnn_of (Z.of_nat (2 + x 2 * x 3)) 3
+  end.
+Example C02_adjacent_example :
+  goodb ex2_scope (Node 0 [Node 1 [Node 2 []]]) = true /\
+  map (fun cell => let x := fun a => nth a cell 0 in
+       Qcanon.this (qv (mul QnnSF (mul QnnSF (Qnn_of 5 1) (belief_i QnnSF (fun _ => 2) ex2_scope ex2_psi 0 1 [Node 2 []] [] x))
+         (zdiv QnnSF (mul QnnSF (Qnn_of 5 1) (belief_j QnnSF (fun _ => 2) ex2_scope ex2_psi 0 1 [Node 2 []] [] x))
+               (@sum_vars QnnSF (fun _ => 2) (diff (ex2_scope 1) (ex2_scope 0)) (fun y => mul QnnSF (Qnn_of 5 1) (belief_j QnnSF (fun _ => 2) ex2_scope ex2_psi 0 1 [Node 2 []] [] y)) x)))))
+      [[0;0;0;0];[1;0;1;0];[1;1;0;0];[1;1;1;0]]
+  = map (fun cell => let x := fun a => nth a cell 0 in
+       Qcanon.this (qv (mul QnnSF (Qnn_of 5 1) (@sum_vars QnnSF (fun _ => 2) [3] (jointt QnnSF ex2_psi (Node 0 [Node 1 [Node 2 []]])) x))))
+      [[0;0;0;0];[1;0;1;0];[1;1;0;0];[1;1;1;0]].
+Proof. split; vm_compute; reflexivity. Qed.
 
 (* PARTIAL: for cliques further apart calculate_many_marginals chains these conditionals along the tree path and sums the intermediate
    clique out; that longer chains equal brute (C_i u C_j) is NOT proved (many_marginals_path_partial) - the correspondence compares
